@@ -21,6 +21,9 @@ type c02Case struct {
 	Op1   int   `json:"op1"`
 	Op2   int   `json:"op2"` // -1: all second opcodes (enumeration); else a single pair (replay)
 	Flags uint8 `json:"flags"`
+	// Effect (C01's pair part): judge what the second instruction does to registers, flags and memory,
+	// not how long either instruction takes
+	Effect bool `json:"effect,omitempty"`
 }
 
 // operands that make every control transfer land in WRAM
@@ -77,9 +80,9 @@ func c02Check(l *explore.Local, e *cpuEnv, c c02Case) *explore.Fail {
 		if f != nil {
 			return f
 		}
-		if o1.cycles != o1.info.Cycles {
+		if o1.cycles != o1.info.Cycles && !c.Effect {
 			f := cyclesFail("", o1, r)
-			f.Case = c02Case{c.Op1, op2, c.Flags}
+			f.Case = c02Case{Op1: c.Op1, Op2: op2, Flags: c.Flags}
 			return f
 		}
 		if f := e.applyWrites(o1); f != nil {
@@ -103,17 +106,20 @@ func c02Check(l *explore.Local, e *cpuEnv, c c02Case) *explore.Fail {
 			}
 		}
 		o2 := stepOutcome{info: info, want: r2, got: e.m.CPU.VGet(), cycles: n}
-		if n != info.Cycles {
+		if n != info.Cycles && !c.Effect {
 			f := cyclesFail(" when it follows another instruction", o2, o1.got)
 			f.Msg += fmt.Sprintf(" (preceded by op %s)", opName(o1.info))
-			f.Case = c02Case{c.Op1, op2, c.Flags}
+			f.Case = c02Case{Op1: c.Op1, Op2: op2, Flags: c.Flags}
 			return f
 		}
 		if f := compareRegs(o2, o1.got); f != nil {
-			f.Case = c02Case{c.Op1, op2, c.Flags}
+			f.Msg += fmt.Sprintf(" (preceded by op %s, CPU not re-seeded in between)", opName(o1.info))
+			f.Case = c02Case{Op1: c.Op1, Op2: op2, Flags: c.Flags, Effect: c.Effect}
 			return f
 		}
 		if f := e.applyWrites(o2); f != nil {
+			f.Msg += fmt.Sprintf(" (preceded by op %s, CPU not re-seeded in between)", opName(o1.info))
+			f.Case = c02Case{Op1: c.Op1, Op2: op2, Flags: c.Flags, Effect: c.Effect}
 			return f
 		}
 		l.Trans(1)
@@ -206,6 +212,10 @@ type c03Case struct {
 	Op    int    `json:"op"`
 	Ptr   uint16 `json:"ptr"` // where BC/DE/HL/SP/nn/FF00+x point
 	Flags uint8  `json:"flags"`
+	// Pre: 0 = the CPU is seeded right before the instruction; n > 0 = instruction n-1 (0-255 base, 256-511 CB)
+	// runs first and the measured instruction follows it WITHOUT re-seeding (its registers are whatever the
+	// predecessor left), so a decode or sequencer state that survives an instruction shows in the access cycles
+	Pre int `json:"pre,omitempty"`
 }
 
 // markerBus: data reads at the listed addresses return a fixed value; everything else from the real pre-state.
@@ -247,6 +257,26 @@ func c03Check(l *explore.Local, e *cpuEnv, c c03Case) *explore.Fail {
 	e.m.Map.Write(0xff0f, 0)
 	e.m.Map.Write(0xffff, 0)
 	e.placeCode(0xc000, code)
+	if c.Pre > 0 {
+		// predecessor at C000, the measured instruction where it leaves PC
+		pre := c.Pre - 1
+		e.poke(regs.SP, 0x40) // a return address in WRAM for RET-like predecessors
+		e.poke(regs.SP+1, 0xc2)
+		e.placeCode(0xc000, c02Code(pre))
+		o1, f := e.runOne(regs)
+		if f != nil {
+			return f
+		}
+		if f := e.applyWrites(o1); f != nil {
+			return nil // the predecessor itself misbehaves: C01's business
+		}
+		g := o1.got
+		if o1.info.Undefined || g.Halted || g.Stopped || !e.m.CPU.VAtBoundary() || g.PC != o1.want.PC || g.PC < 0xc000 || g.PC >= 0xdd00 {
+			return nil
+		}
+		regs = g
+		e.placeCode(regs.PC, code)
+	}
 	// dry run of the reference to learn the documented accesses
 	e.log = e.log[:0]
 	dry := toRef(regs)
@@ -334,7 +364,9 @@ func c03Check(l *explore.Local, e *cpuEnv, c c03Case) *explore.Fail {
 	for _, w := range expWrites {
 		e.poke(w.Addr, ^w.Val)
 	}
-	e.m.CPU.VSet(regs)
+	if c.Pre == 0 {
+		e.m.CPU.VSet(regs)
+	}
 	seen := make([]int, len(expWrites))
 	n := 0
 	for {
@@ -359,6 +391,9 @@ func c03Check(l *explore.Local, e *cpuEnv, c c03Case) *explore.Fail {
 	got := e.m.CPU.VGet()
 	o := stepOutcome{info: wantInfo, want: want, got: got, cycles: n}
 	name := opName(info)
+	if c.Pre > 0 {
+		name += " (after another instruction)"
+	}
 	if f := compareRegs(o, regs); f != nil {
 		// the value consumed was not the one present in the documented cycle
 		cyc := []int{}
@@ -408,7 +443,7 @@ func init() {
 						continue
 					}
 					for _, fl := range flagSets {
-						if !yield(c02Case{op, -1, fl}) {
+						if !yield(c02Case{Op1: op, Op2: -1, Flags: fl}) {
 							return
 						}
 					}
@@ -421,7 +456,7 @@ func init() {
 						continue
 					}
 					for _, fl := range allFlags {
-						if !yield(c02Case{op, 0x00, fl}) || !yield(c02Case{op, 0x20, fl}) {
+						if !yield(c02Case{Op1: op, Op2: 0x00, Flags: fl}) || !yield(c02Case{Op1: op, Op2: 0x20, Flags: fl}) {
 							return
 						}
 					}
@@ -443,7 +478,7 @@ func init() {
 
 	register("C03", "model_checking", func(c *Ctx) {
 		if c.R != nil {
-			c.R.Rule = "for every opcode with a data access x pointer placement x flag nibble: before each machine cycle the harness stores a marker at every address the instruction reads, the distinguishing marker only before the documented read cycle, so the registers/flags at the boundary identify the cycle of the read; every write target is read back after every cycle so the first cycle at which it holds the written value identifies the cycle of the write; the documented cycles come from the reference interpreter's access list"
+			c.R.Rule = "for every opcode with a data access x pointer placement x flag nibble: before each machine cycle the harness stores a marker at every address the instruction reads, the distinguishing marker only before the documented read cycle, so the registers/flags at the boundary identify the cycle of the read; every write target is read back after every cycle so the first cycle at which it holds the written value identifies the cycle of the write; the documented cycles come from the reference interpreter's access list; the same measurement with a predecessor instruction executed first and the CPU not re-seeded in between"
 			c.R.Assumptions = []string{"operand-byte fetch cycles and the pushes of interrupt dispatch are outside the statement", "addressed locations are memory-like (WRAM, echo, HRAM, VRAM/OAM with the LCD off)"}
 		}
 		ptrs := []uint16{0xc100, 0xdfc0, 0xe100, 0xfd80, 0xff80, 0xffa0, 0x8100, 0xfe10}
@@ -455,8 +490,40 @@ func init() {
 					}
 					for _, p := range ptrs {
 						for _, fl := range allFlags {
-							if !yield(c03Case{op, p, fl}) {
+							if !yield(c03Case{Op: op, Ptr: p, Flags: fl}) {
 								return
+							}
+						}
+					}
+				}
+			}, newCPUEnv, c03Check)
+		explore.Product(c.R, "access-cycles-after-a-predecessor", explore.PartOpt{Bound: "two instructions, the CPU is not re-seeded between them; every machine cycle of the second observed", Domain: "every memory-accessing opcode x predecessors {its CB-prefixed / unprefixed twin, NOP, JR NZ taken and not taken, RET NZ not taken, BIT 0,(HL), INC (HL), PUSH BC, LD A,(HL+), CALL, RST-free set} (thorough: all 500 predecessors) x 2 pointer placements x flags {00,F0}"},
+			func(yield func(c03Case) bool) {
+				for op := 0; op < 512; op++ {
+					if op < 256 && (ref.UndefinedOpcodes[uint8(op)] || op == 0xcb) {
+						continue
+					}
+					pres := []int{0x00, 0x20, 0xc0, 0x100 + 0x46, 0x34, 0xc5, 0x2a, 0xcd, 0x18, 0x100 + 0x86}
+					if op < 256 {
+						pres = append(pres, 0x100+op)
+					} else {
+						pres = append(pres, op-0x100)
+					}
+					if c.Thorough() {
+						pres = nil
+						for q := 0; q < 512; q++ {
+							if q < 256 && (ref.UndefinedOpcodes[uint8(q)] || q == 0xcb || q == 0x76 || q == 0x10) {
+								continue
+							}
+							pres = append(pres, q)
+						}
+					}
+					for _, pre := range pres {
+						for _, p := range []uint16{0xc100, 0xff90} {
+							for _, fl := range []uint8{0x00, 0xf0} {
+								if !yield(c03Case{Op: op, Ptr: p, Flags: fl, Pre: pre + 1}) {
+									return
+								}
 							}
 						}
 					}
